@@ -296,6 +296,22 @@ pub fn tamper(site: Option<Site>) -> (StdArc<Tamper>, DynStreamInterceptor) {
     tamper_many(site.into_iter().collect())
 }
 
+/// As `tamper`, with the corrupt helper's OWN MAC-key shares known from the start (a helper knows its own shares; the harness
+/// reads them off that helper's own opening messages in the honest run of the same seed). What the peers open to it must
+/// still be observed live.
+pub fn tamper_knowing_own_keys(site: Option<Site>, own: &BTreeMap<(usize, usize), [u8; 4]>, corrupt: usize) -> (StdArc<Tamper>, DynStreamInterceptor) {
+    let (t, i) = tamper_many(site.into_iter().collect());
+    {
+        let mut log = t.log.lock().unwrap();
+        for ((src, dst), v) in own {
+            if *src == corrupt {
+                log.key_shares.insert((*src, *dst), *v);
+            }
+        }
+    }
+    (t, i)
+}
+
 pub fn tamper_many(sites: Vec<Site>) -> (StdArc<Tamper>, DynStreamInterceptor) {
     let t = StdArc::new(Tamper { sites, log: StdMutex::new(FaultLog::default()) });
     let t2 = StdArc::clone(&t);
